@@ -93,6 +93,20 @@ def crash_states(rec, data_dir, prefix_policy='all'):
     for k, ev in enumerate(events):
         yield {'point': k, 'of': n, 'before': ev['kind'], 'path': _short(ev['path'], data_dir), 'torn': None}, \
             (lambda t, s=ev['snapshot']: copy_snapshot(s, t))
+    # the state immediately AFTER a rename, with nothing else flushed: a file renamed into place while its content is
+    # still in a write buffer is visible under the final name but empty / short
+    for k, ev in enumerate(events):
+        if ev['kind'] != 'os.rename' or not ev.get('dst'):
+            continue
+
+        def builder(t, s=ev['snapshot'], src=ev['path'], dst=ev['dst']):
+            copy_snapshot(s, t)
+            rs, rd = os.path.relpath(src, str(data_dir)), os.path.relpath(dst, str(data_dir))
+            if not rs.startswith('..') and not rd.startswith('..') and os.path.lexists(os.path.join(t, rs)):
+                if os.path.isdir(os.path.join(t, rd)) and not os.path.islink(os.path.join(t, rd)):
+                    return
+                os.replace(os.path.join(t, rs), os.path.join(t, rd))
+        yield {'point': k, 'of': n, 'before': 'after-rename', 'path': _short(ev['dst'], data_dir), 'torn': None}, builder
     # torn prefixes of every file opened for writing
     for k, ev in enumerate(events):
         if ev['kind'] != 'open-w':
